@@ -79,7 +79,8 @@ pub fn check_trace(trace: &mut ExecutionTrace, inputs: processor::StackInputs, k
     for step in 0..len - exempt {
         let pv = periodic_at(&air, &polys, step);
         trace.read_main_frame(step, &mut frame);
-        air.evaluate_transition(&frame, &pv, &mut evals);
+        evals.fill(Felt::ZERO);
+            air.evaluate_transition(&frame, &pv, &mut evals);
         for (i, e) in evals.iter().enumerate() {
             if *e != Felt::ZERO && rep.main_viol.len() < 50 {
                 rep.main_viol.push((i, step));
@@ -114,6 +115,7 @@ pub fn check_trace(trace: &mut ExecutionTrace, inputs: processor::StackInputs, k
             trace.read_main_frame(step, &mut frame);
             aux.read_row_into(step, aframe.current_mut());
             aux.read_row_into((step + 1) % len, aframe.next_mut());
+            aevals.fill(QuadFelt::ZERO);
             air.evaluate_aux_transition(&frame, &aframe, &pv, &are, &mut aevals);
             for (i, e) in aevals.iter().enumerate() {
                 if *e != QuadFelt::ZERO && rep.aux_viol.len() < 50 {
@@ -186,6 +188,284 @@ pub fn air_check(inp: &str, outp: &str) {
         let mut line = first.unwrap_or(json!({"outcome": "none"}));
         line["lens"] = Value::Array(lens);
         out.line(&line);
+    }
+    out.flush();
+}
+
+// ------------------------------------------------------------------------------------------------------------------
+// C04: perturbation of honest row pairs.  The table of enforced cells comes from the specification (AirEnforced.tla).
+use miden_air::trace::{
+    decoder::{HASHER_STATE_OFFSET, OP_BITS_OFFSET},
+    CLK_COL_IDX, DECODER_TRACE_OFFSET, FMP_COL_IDX, STACK_TRACE_OFFSET,
+};
+use std::collections::BTreeMap;
+
+fn op_at(m: &ColMatrix<Felt>, t: usize) -> (&'static str, u8) {
+    let mut c = 0u8;
+    for i in 0..7 {
+        c |= (m.get_column(DECODER_TRACE_OFFSET + OP_BITS_OFFSET + i)[t].as_int() as u8) << i;
+    }
+    (all_ops().into_iter().find(|(_, o)| o.op_code() == c).map(|(n, _)| n).unwrap_or("UNKNOWN"), c)
+}
+
+/// column and row (false = current, true = next) of a named cell
+fn locate(cell: &str) -> Option<(usize, bool)> {
+    if let Some(i) = cell.strip_prefix('s') {
+        return i.parse::<usize>().ok().map(|i| (STACK_TRACE_OFFSET + i, true));
+    }
+    match cell {
+        "b0" => Some((STACK_TRACE_OFFSET + 16, true)),
+        "b1" => Some((STACK_TRACE_OFFSET + 17, true)),
+        "hb" => Some((STACK_TRACE_OFFSET + 18, false)),
+        "fmp" => Some((FMP_COL_IDX, true)),
+        "clk" => Some((CLK_COL_IDX, true)),
+        _ => {
+            let h = cell.split('?').next().unwrap();
+            h.strip_prefix('h').and_then(|i| i.parse::<usize>().ok()).map(|i| (DECODER_TRACE_OFFSET + HASHER_STATE_OFFSET + 2 + i, false))
+        }
+    }
+}
+
+pub fn air_perturb(inp: &str, outp: &str) {
+    let mut out = Out::new(outp);
+    let scs = read_ndjson(inp);
+    let table = scs[0]["table"].clone();
+    let nvals = scs[0]["values"].as_u64().unwrap_or(4) as usize;
+    for sc in scs.iter().skip(1) {
+        let c = compile(sc);
+        let program = match c.program {
+            Some(p) => p,
+            None => {
+                out.line(&c.outcome);
+                continue;
+            }
+        };
+        let r = catch(|| {
+            let host = DefaultHost::new(MemAdviceProvider::from(advice_inputs(sc)));
+            processor::execute(&program, stack_inputs(sc), host, exec_options(sc))
+        });
+        let trace = match r {
+            Ok(Ok(t)) => t,
+            Ok(Err(e)) => {
+                out.line(&json!({"outcome": "err", "err": err_json(&e)}));
+                continue;
+            }
+            Err(m) => {
+                out.line(&json!({"outcome": "panic", "msg": m}));
+                continue;
+            }
+        };
+        let air = make_air(&trace, stack_inputs(sc));
+        let polys = air.get_periodic_column_polys();
+        let n_main = air.context().num_main_transition_constraints();
+        let width = trace.main_trace_width();
+        let m = trace.main_segment();
+        let last = trace.trace_len_summary().main_trace_len().min(trace.length() - 3);
+        let mut rng = rand_chacha::ChaCha20Rng::seed_from_u64(sc["seed"].as_u64().unwrap_or(1));
+        // (op, regime, cell) -> [tested, undetected, first undetected {row, kind}]
+        let mut agg: BTreeMap<(String, String, String), (u64, u64, Value)> = BTreeMap::new();
+        let mut honest_bad = 0u64;
+        let mut frame = EvaluationFrame::new(width);
+        let mut evals = vec![Felt::ZERO; n_main];
+        for t in 0..=last {
+            let (name, _) = op_at(m, t);
+            let b0 = m.get_column(STACK_TRACE_OFFSET + 16)[t].as_int();
+            let regime = if b0 == 16 { "d16" } else if b0 == 17 { "d17" } else { "deep" };
+            let hs = |i: usize| m.get_column(DECODER_TRACE_OFFSET + HASHER_STATE_OFFSET + i)[t];
+            let (key, cells) = if table["ops"].get(name).is_some() {
+                (name.to_string(), &table["ops"][name][regime])
+            } else {
+                let k = if name == "END" {
+                    if hs(5) == Felt::ONE { "END:loop" } else if hs(6) == Felt::ONE || hs(7) == Felt::ONE { "END:call" } else { "END" }
+                } else {
+                    name
+                };
+                (k.to_string(), &table["ctl"][k][regime])
+            };
+            let cells = match cells.as_array() {
+                Some(c) => c,
+                None => continue,
+            };
+            let pv = periodic_at(&air, &polys, t);
+            trace.read_main_frame(t, &mut frame);
+            evals.fill(Felt::ZERO);
+            air.evaluate_transition(&frame, &pv, &mut evals);
+            if evals.iter().any(|e| *e != Felt::ZERO) {
+                honest_bad += 1;
+                continue;
+            }
+            let cur: Vec<Felt> = frame.current().to_vec();
+            let nxt: Vec<Felt> = frame.next().to_vec();
+            let s = |i: usize| cur[STACK_TRACE_OFFSET + i];
+            for cell in cells {
+                let cell = cell.as_str().unwrap();
+                if let Some(cond) = cell.split('?').nth(1) {
+                    let holds = match cond {
+                        "s0#s1" => s(0) != s(1),
+                        "s0#0" => s(0) != Felt::ZERO,
+                        _ => false,
+                    };
+                    if !holds {
+                        continue;
+                    }
+                }
+                let (col, in_next) = match locate(cell) {
+                    Some(x) => x,
+                    None => continue,
+                };
+                let honest = if in_next { nxt[col] } else { cur[col] };
+                let neighbour = if in_next { nxt[if col > 0 { col - 1 } else { col + 1 }] } else { cur[col + 1] };
+                let cands: Vec<(&str, Felt)> = vec![
+                    ("+1", honest + Felt::ONE), ("-1", honest - Felt::ONE), ("0", Felt::ZERO), ("1", Felt::ONE), ("neighbour", neighbour),
+                    ("p-1", Felt::new(Felt::MODULUS - 1)), ("2^32", Felt::new(1 << 32)), ("rand", Felt::new(rng.next_u64() % Felt::MODULUS)),
+                ];
+                let mut used = 0;
+                for (kind, v) in cands {
+                    if v == honest || used >= nvals {
+                        continue;
+                    }
+                    used += 1;
+                    let mut f2 = EvaluationFrame::from_rows(cur.clone(), nxt.clone());
+                    if in_next {
+                        f2.next_mut()[col] = v;
+                    } else {
+                        f2.current_mut()[col] = v;
+                    }
+                    evals.fill(Felt::ZERO); // (some chiplet constraints accumulate into the buffer)
+                        air.evaluate_transition(&f2, &pv, &mut evals);
+                    let detected = evals.iter().any(|e| *e != Felt::ZERO);
+                    let e = agg.entry((key.clone(), regime.to_string(), cell.to_string())).or_insert((0, 0, Value::Null));
+                    e.0 += 1;
+                    if !detected {
+                        e.1 += 1;
+                        if e.2.is_null() {
+                            e.2 = json!({"row": t, "kind": kind, "honest": honest.as_int().to_string(), "wrong": v.as_int().to_string()});
+                        }
+                    }
+                }
+            }
+        }
+        // chiplet rows and the range checker: cells named by the specification's chiplet table
+        if let Some(chip) = table.get("chip") {
+            use miden_air::trace::chiplets::{
+                BITWISE_A_COL_IDX, BITWISE_A_COL_RANGE, BITWISE_B_COL_IDX, BITWISE_B_COL_RANGE, BITWISE_OUTPUT_COL_IDX, BITWISE_PREV_OUTPUT_COL_IDX,
+                HASHER_STATE_COL_RANGE, MEMORY_D0_COL_IDX, MEMORY_D1_COL_IDX, MEMORY_D_INV_COL_IDX, MEMORY_V_COL_RANGE, MEMORY_SELECTORS_COL_IDX,
+            };
+            use miden_air::trace::{range::V_COL_IDX, CHIPLETS_OFFSET};
+            let kind_of = |t: usize| -> &'static str {
+                let g = |c: usize| m.get_column(CHIPLETS_OFFSET + c)[t];
+                if g(0) == Felt::ZERO { "hasher" } else if g(1) == Felt::ZERO { "bitwise" } else if g(2) == Felt::ZERO { "memory" } else if g(3) == Felt::ZERO { "kernel" } else { "pad" }
+            };
+            let colmap = |kind: &str, cell: &str| -> Option<usize> {
+                let idx = |p: &str| cell.strip_prefix(p).and_then(|x| x.parse::<usize>().ok());
+                match kind {
+                    "hasher" => idx("st").map(|i| HASHER_STATE_COL_RANGE.start + i),
+                    "bitwise" => match cell {
+                        "a" => Some(BITWISE_A_COL_IDX), "b" => Some(BITWISE_B_COL_IDX), "zp" => Some(BITWISE_PREV_OUTPUT_COL_IDX), "z" => Some(BITWISE_OUTPUT_COL_IDX),
+                        _ => idx("abit").map(|i| BITWISE_A_COL_RANGE.start + i).or(idx("bbit").map(|i| BITWISE_B_COL_RANGE.start + i)),
+                    },
+                    "memory" => match cell {
+                        "d0" => Some(MEMORY_D0_COL_IDX), "d1" => Some(MEMORY_D1_COL_IDX), "dinv" => Some(MEMORY_D_INV_COL_IDX),
+                        "sel0" => Some(MEMORY_SELECTORS_COL_IDX), "sel1" => Some(MEMORY_SELECTORS_COL_IDX + 1),
+                        _ => idx("v").map(|i| MEMORY_V_COL_RANGE.start + i),
+                    },
+                    "range" => Some(V_COL_IDX),
+                    _ => None,
+                }
+            };
+            let total = trace.length() - 2;
+            for t in 0..total {
+                let pv = periodic_at(&air, &polys, t);
+                trace.read_main_frame(t, &mut frame);
+                let cur: Vec<Felt> = frame.current().to_vec();
+                let nxt: Vec<Felt> = frame.next().to_vec();
+                let (k0, k1) = (kind_of(t), kind_of(t + 1));
+                let mut jobs: Vec<(String, String, String, usize, Vec<(&str, Felt)>)> = vec![]; // (kind, variant, cell, col, wrong values)
+                // (chiplets/main.md: the memory chiplet's selector flag excludes its last row - documented, not judged)
+                let last_mem_row = k1 == "memory" && kind_of(t + 2) != "memory";
+                if k0 == k1 && chip.get(k0).is_some() && !last_mem_row {
+                    let variant = match k0 {
+                        "hasher" => if t % 8 == 7 { "boundary" } else { "round" },
+                        "bitwise" => if t % 8 == 7 { "boundary" } else { "inner" },
+                        "memory" => {
+                            let rd = nxt[MEMORY_SELECTORS_COL_IDX] == Felt::ONE;
+                            let same = nxt[MEMORY_SELECTORS_COL_IDX + 2] == cur[MEMORY_SELECTORS_COL_IDX + 2] && nxt[MEMORY_SELECTORS_COL_IDX + 3] == cur[MEMORY_SELECTORS_COL_IDX + 3];
+                            if rd && same { "readsame" } else if rd { "readnew" } else if same { "writesame" } else { "writenew" }
+                        }
+                        _ => "x",
+                    };
+                    if let Some(cells) = chip[k0][variant].as_array() {
+                        for cell in cells {
+                            let cell = cell.as_str().unwrap();
+                            if let Some(col) = colmap(k0, cell) {
+                                let h = nxt[col];
+                                jobs.push((k0.to_string(), variant.to_string(), cell.to_string(), col,
+                                           vec![("+1", h + Felt::ONE), ("-1", h - Felt::ONE), ("0", Felt::ZERO), ("1", Felt::ONE), ("2", Felt::new(2)), ("rand", Felt::new(rng.next_u64() % Felt::MODULUS))]));
+                            }
+                        }
+                    }
+                }
+                if chip.get("range").is_some() && t < total - 1 {
+                    // a step that is not 0 or a power of three (range.md)
+                    let v = cur[V_COL_IDX].as_int();
+                    let ok = |d: u64| d == 0 || [1u64, 3, 9, 27, 81, 243, 729, 2187].contains(&d);
+                    let mut vals = vec![];
+                    for (kind, c) in [("+2", v + 2), ("+4", v + 4), ("+6561", v + 6561), ("-1", v.wrapping_sub(1) % Felt::MODULUS), ("+5", v + 5)] {
+                        if !ok(c.wrapping_sub(v)) {
+                            vals.push((kind, Felt::new(c % Felt::MODULUS)));
+                        }
+                    }
+                    jobs.push(("range".to_string(), "step".to_string(), "v".to_string(), V_COL_IDX, vals));
+                }
+                if jobs.is_empty() {
+                    continue;
+                }
+                evals.fill(Felt::ZERO);
+            air.evaluate_transition(&frame, &pv, &mut evals);
+                if evals.iter().any(|e| *e != Felt::ZERO) {
+                    if std::env::var("MVH_DEBUG").is_ok() {
+                        let bad: Vec<usize> = evals.iter().enumerate().filter(|(_, e)| **e != Felt::ZERO).map(|(i, _)| i).collect();
+                        eprintln!("honest row {t} ({k0}) violates constraints {bad:?}");
+                    }
+                    continue;
+                }
+                for (kind, variant, cell, col, vals) in jobs {
+                    let honest = nxt[col];
+                    let mut used = 0;
+                    for (vk, v) in vals {
+                        if v == honest || used >= nvals {
+                            continue;
+                        }
+                        used += 1;
+                        let mut f2 = EvaluationFrame::from_rows(cur.clone(), nxt.clone());
+                        f2.next_mut()[col] = v;
+                        evals.fill(Felt::ZERO); // (some chiplet constraints accumulate into the buffer)
+                        air.evaluate_transition(&f2, &pv, &mut evals);
+                        let mut detected = evals.iter().any(|e| *e != Felt::ZERO);
+                        if !detected && t + 2 < trace.length() - 1 {
+                            // the altered row is also the current row of the following transition
+                            let mut f3 = EvaluationFrame::new(width);
+                            trace.read_main_frame(t + 1, &mut f3);
+                            f3.current_mut()[col] = v;
+                            let pv3 = periodic_at(&air, &polys, t + 1);
+                            evals.fill(Felt::ZERO);
+                            air.evaluate_transition(&f3, &pv3, &mut evals);
+                            detected = evals.iter().any(|e| *e != Felt::ZERO);
+                        }
+                        let e = agg.entry((format!("chip:{kind}"), variant.clone(), cell.clone())).or_insert((0, 0, Value::Null));
+                        e.0 += 1;
+                        if !detected {
+                            e.1 += 1;
+                            if e.2.is_null() {
+                                e.2 = json!({"row": t, "kind": vk, "honest": honest.as_int().to_string(), "wrong": v.as_int().to_string()});
+                            }
+                        }
+                    }
+                }
+            }
+        }
+        let cells: Vec<Value> = agg.into_iter().map(|((op, rg, cell), (n, u, first))| json!({"op": op, "regime": rg, "cell": cell, "tested": n, "undetected": u, "first": first})).collect();
+        out.line(&json!({"outcome": "ok", "rows": last + 1, "honest_rows_not_satisfying_air": honest_bad, "cells": cells}));
     }
     out.flush();
 }
